@@ -1,0 +1,57 @@
+//go:build verif
+
+// Contracts for the verification machinery in /verif (govc). This file is only compiled with -tags verif;
+// it adds no behaviour to the package. Syntax: see /verif/DESIGN.md, Appendix A.
+package schema
+
+// verifAssume / verifAssert are the harness primitives: govc treats them as assumption and obligation;
+// natively (replays) a violated assertion panics with its label.
+func verifAssume(c bool) {
+	if !c {
+		panic("verifAssume: precondition of the harness not met")
+	}
+}
+
+func verifAssert(label string, c bool) {
+	if !c {
+		panic("verifAssert violated: " + label)
+	}
+}
+
+// ---- C16: proof-message converters (database_protoconv.go) --------------------------------------------------------
+// The arguments are (sub-)messages of a protobuf message received from the peer: any pointer may be nil, any slice may
+// have any length. Deliberately NO `requires x != nil`: a nil sub-message is malformed input and must not panic.
+
+//@ func DigestFromProto
+//@   assigns nothing
+
+//@ func DigestsFromProto
+//@   ensures len: len(r0) == len(slicedTerms)
+//@   assigns nothing
+
+// Own block so that TxHeaderFromProto does not inline the store.TxMetadata builders (map-typed attribute set).
+//@ func TxMetadataFromProto
+//@   assigns nothing
+
+//@ func TxHeaderFromProto
+//@   ensures nonnil: r0 != nil
+//@   assigns nothing
+
+//@ func InclusionProofFromProto
+//@   ensures nonnil: r0 != nil
+//@   assigns nothing
+
+//@ func LinearProofFromProto
+//@   ensures nonnil: r0 != nil
+//@   assigns nothing
+
+//@ func LinearAdvanceProofFromProto
+//@   assigns nothing
+
+//@ func DualProofFromProto
+//@   ensures nonnil: r0 != nil
+//@   assigns nothing
+
+//@ func DualProofV2FromProto
+//@   ensures nonnil: r0 != nil
+//@   assigns nothing
